@@ -15,6 +15,8 @@ from nutree import SelectBranch, SkipBranch, StopTraversal, Tree
 
 ID = "C08"
 LEVEL = "exploration"
+TECHNIQUE = 'bounded-exhaustive verdict assignments + Hypothesis against a reference filter written from the documentation'
+LEVEL_TEXT = 'exploration with an exhaustive part: all 7^n verdict assignments on all forests up to the bound, in-place and copying forms, tree and branch; the known finding D11 is handled by a defect model that is armed only while its witness still fails'
 RULE = (
     "case = (forest, verdict per node from {True, False, None, SkipBranch, SkipBranch(and_self=False), SelectBranch, "
     "StopTraversal}, returned-or-raised form, start = tree or branch). Exhaustive part: every forest with <= N nodes x "
